@@ -1710,12 +1710,14 @@ func (c *crCase) oracles(r *crRun, rels []crSigRel, twin *crFacts, inherited str
 		mode = "flush-every-block"
 	}
 	cause := c.cause(r)
+	own := false
 	switch cause {
 	case "genesis-fallback", "head-rewound", "genesis-commit-not-atomic":
-		// the recovering life ran into one of these windows itself: its own root cause
-		inherited = ""
+		// the restarted node is in one of these situations itself: that is the root cause, whatever
+		// the first crash was
+		own = true
 	}
-	if inherited != "" {
+	if inherited != "" && !own {
 		cause = inherited
 	}
 	win, second := img.window, 0
@@ -1723,7 +1725,16 @@ func (c *crCase) oracles(r *crRun, rels []crSigRel, twin *crFacts, inherited str
 		// second crash: the window that determines the root cause
 		second = 1
 		win = img.w2
-		if inherited != "" {
+		switch {
+		case own && cause == "genesis-fallback":
+			// the crash between head batch and consensus-state batch, in whichever life it happened
+			if !strings.HasPrefix(img.w2, "after:head(") {
+				win = img.w1
+			}
+		case own && cause == "genesis-commit-not-atomic":
+			win = img.w1
+		case own:
+		case inherited != "":
 			win = img.w1
 		}
 	}
